@@ -50,6 +50,10 @@ var concCurated = [][2]string{
 	{"-", "X2:r1[0],X2:r1[+]"},                                             // C18-F1 (fixed in e69b1c0): nil interface value, second exclusive decode; regression detector
 	{"-", "X2:r1[0]|X2:r1[+]"},                                             // C18-F1 (fixed): ... and the waiter
 	{"1>2", "D0:r2[+],D0:r1[+],P01:r1,D0:r1[+]"},                           // C18-F2: pair published on the head of a reference chain
+	{"1>2", "D0:r2[+],X0:r1[+]|X0:r1[+]"},                                  // the owner's Decode ends in a cache hit below the head: nothing is cached under (r1, T0), the waiter still gets the owner's value
+	{"1>2,2>3", "X0:r3[+],X0:r1[+]|X0:r1[+]|D0:r1[+]"},                     // ... two links, pre-cached by DecodeExclusive
+	{"1>2,2>3", "D0:r3[+],D0:r2[+],X0:r1[+]|X0:r1[+]"},                     // ... the pre-decode of r2 is itself a hit at r3
+	{"1>2", "D1:r2[+],X0:r1[+]|X0:r1[+]"},                                  // ... cached under another type only: the function runs
 }
 
 // calls used for the exhaustive two-thread enumeration
@@ -81,6 +85,85 @@ func concPairOnChain(p *concProg, g concGetter) bool {
 		}
 	}
 	return false
+}
+
+// ---- reference chains with pre-cached links
+//
+// A chain r1 > r2 > … of 1–3 links; thread 0 first, alone (program text `pre/…`), caches a choice of the links r2… (by Decode or
+// by DecodeExclusive, under the type of the later calls or under another one, innermost first, so
+// an outer pre-decode ends in a cache hit further down and is NOT published under the outer
+// reference), then k >= 2 threads decode the head r1, at least one of them with DecodeExclusive.
+// Every schedule is executed (the owner is parked inside Get of every link and at every hook while
+// the others arrive).  What must hold is what the generic oracles and the outcome comparison with
+// the model say: every caller of the head gets the one non-nil value a sequential run gives, a
+// waiter gets its owner's outcome (`exclusive_outcome_shared`), also when the owner's Decode ended
+// in a cache hit below the head and nothing is cached under (head, T).
+
+var concChainGraphs = []string{"1>2", "1>2,2>3", "1>2,2>3,3>4"}
+
+// modes of one link: not pre-cached, Decode/DecodeExclusive under T0, Decode/DecodeExclusive under T1
+var concChainModes = []string{"", "D0", "X0", "D1", "X1"}
+
+var concChainHeads = [][]string{
+	{"X0:r1[+]", "X0:r1[+]"},
+	{"X0:r1[+]", "D0:r1[+]"},
+	{"D0:r1[+]", "X0:r1[+]"},
+	{"X0:r1[+]", "X0:r1[+]", "X0:r1[+]"},
+	{"X0:r1[+]", "D0:r1[+]", "X0:r1[+]"},
+}
+
+// concChainProgram: modes[i] is the mode of link r(i+2)
+func concChainProgram(modes []int, heads []string) string {
+	var pre []string
+	for i := len(modes) - 1; i >= 0; i-- {
+		if m := concChainModes[modes[i]]; m != "" {
+			pre = append(pre, fmt.Sprintf("%s:r%d[+]", m, i+2))
+		}
+	}
+	ths := make([]string, len(heads))
+	for t, h := range heads {
+		ths[t] = h
+		if t == 0 {
+			ths[t] = h
+			if len(pre) > 0 {
+				ths[t] = strings.Join(pre, ",") + "/" + h
+			}
+		}
+	}
+	return strings.Join(ths, "|")
+}
+
+func runConcChains(c *Ctx, maxLeaves int) {
+	for l, g := range concChainGraphs {
+		links := l + 1
+		n := 1
+		for i := 0; i < links; i++ {
+			n *= len(concChainModes)
+		}
+		for code := 1; code < n; code++ {
+			modes := make([]int, links)
+			for i, x := 0, code; i < links; i, x = i+1, x/len(concChainModes) {
+				modes[i] = x % len(concChainModes)
+			}
+			uniform, first := true, 0
+			for _, m := range modes {
+				if m != 0 && first != 0 && m != first {
+					uniform = false
+				}
+				if m != 0 && first == 0 {
+					first = m
+				}
+			}
+			for hi, heads := range concChainHeads {
+				// quick tier: every subset of the links pre-cached in one way with every shape of
+				// callers; of the subsets pre-cached in mixed ways a seed-dependent fifth
+				if !c.Thorough && !uniform && (code+hi)%5 != int(c.R.s%5) {
+					continue
+				}
+				concDoProgram(c, g, concChainProgram(modes, heads), maxLeaves, "chain with pre-cached links")
+			}
+		}
+	}
 }
 
 // ---- random programs
@@ -190,7 +273,11 @@ func concDoProgram(c *Ctx, gtext, ptext string, maxLeaves int, origin string) {
 	}
 	g, gmax := parseConcGetter(gtext)
 	poc := concPairOnChain(p, g)
-	ex := concExploreAll(p, g, gmax, maxLeaves, poc, 7)
+	sampleEvery := 7
+	if maxLeaves <= 300 {
+		sampleEvery = 15 // the chain programs of the quick tier: twenty sampled schedules each
+	}
+	ex := concExploreAll(p, g, gmax, maxLeaves, poc, sampleEvery)
 	c.Case(gtext+" "+ptext, ex.leaves > 1)
 	c.Stat("programs:" + origin)
 	c.StatN("schedules executed on the real code", ex.leaves)
@@ -264,6 +351,13 @@ func runConcSched(c *Ctx) {
 	}
 	for _, gp := range concCurated {
 		concDoProgram(c, gp[0], gp[1], 50000, "curated")
+	}
+	if c.Thorough {
+		runConcChains(c, 2000)
+	} else {
+		// depth first, the schedules in which a second caller arrives while the first is between
+		// registering and publishing are among the first three hundred
+		runConcChains(c, 300)
 	}
 	// long chain: the depth limit
 	{
